@@ -25,6 +25,7 @@
 -/
 import FerrousSpec.Proofs.BlockingRun
 import FerrousSpec.Proofs.BlockingFixRun
+import FerrousSpec.Proofs.BlockingQuiet
 import FerrousSpec.Proofs.BlockingFifo
 import FerrousSpec.Gen.Blocking
 namespace Ferrous.C13
@@ -92,7 +93,7 @@ def sourceQuirks : Quirks :=
   ⟨Gen.Blocking.notifyPerElement, Gen.Blocking.wakeAtPush, Gen.Blocking.unregisterAllOnServe,
    Gen.Blocking.refuseBlockingInTx, Gen.Blocking.dedupKeys, Gen.Blocking.drainAll,
    Gen.Blocking.noticeBlockedHangup, Gen.Blocking.deferBatchWhenBlocked, Gen.Blocking.execAtomic,
-   Gen.Blocking.wakeChecksClient⟩
+   Gen.Blocking.wakeChecksClient, Gen.Blocking.serveDrains, Gen.Blocking.probeReadsInput⟩
 
 /-- The model drains as many wake-ups per loop iteration as the source says. -/
 theorem wakeBatch_matches_source : Gen.Blocking.wakeBatch = wakeBatch := by decide
@@ -216,7 +217,7 @@ theorem timeout_fires_fixed_partial (q : Quirks) (hq : Repaired q) (evs : List E
 /-- The switches of the tree at the time of writing: the five repairs, none of the four proposed since. -/
 def repaired5 : Quirks :=
   { Quirks.fixed with drainAll := false, noticeBlockedHangup := false, deferBatchWhenBlocked := false, execAtomic := false,
-                      wakeChecksClient := false }
+                      wakeChecksClient := false, serveDrains := false, probeReadsInput := false }
 
 example : Repaired repaired5 := by decide
 
@@ -265,21 +266,85 @@ theorem sweep_covers_scripts_and_rename :
     ∀ c ∈ ["EVAL", "EVALSHA", "RENAME", "RENAMENX"],
       c ∈ Gen.Blocking.sweepCommands ∧ c ∈ Gen.Blocking.execSweepCommands := by decide
 
+/-! ### The wake queue is empty between events — for every history -/
+
+/-- Once every place that queues a wake-up request carries out all queued requests before it returns (`wakeAtPush`,
+    `drainAll`, `serveDrains`), NO history leaves a request behind: hang-ups, CLIENT KILL, stale waiters, pipelined
+    batches, transactions — nothing is excluded.  (`wake_queue_empty_fixed_partial` says the same under `AllowedFixed`
+    without `serveDrains`; what it excludes there — a stale head waiter — is exactly what `serveDrains` repairs.) -/
+theorem wake_queue_empty_always (q : Quirks) (hq : AlwaysDrains q) (evs : List Event) : (run q evs).wakeQ = [] :=
+  quiet_run q hq evs
+
+example : AlwaysDrains Quirks.fixed := by decide
+
+/-- The tree as it is (`serveDrains` off): two clients blocked on `a`, the first is killed (CLIENT KILL — its
+    registrations stay until the end of the iteration), and in the same batch `MULTI; RPUSH a 1; EXEC`: `serve_key`
+    wakes the stale head, `wake_client` queues a request for the second client — and the loop ends there, the request
+    stays queued. -/
+def wStaleHead : List Event :=
+  [ .conn 3 0 [.bpop .left [ka] 0], .conn 4 0 [.bpop .left [ka] 0], .kill 3,
+    .conn 2 5 [.multi, .push .right ka [[1]], .exec] ]
+
+theorem wake_queue_left_over_stale_head :
+    (run { Quirks.fixed with serveDrains := false } wStaleHead).wakeQ = [⟨4, ka, .left⟩] ∧
+    (run { Quirks.fixed with serveDrains := false } wStaleHead).store = [(ka, [1])] ∧
+    ((run { Quirks.fixed with serveDrains := false } wStaleHead).conns 4).blocked = some ⟨[ka], none, .left⟩ := by decide
+
+/-- The same without CLIENT KILL: the head waiter hangs up after this iteration's probe (the loop was stalled); the
+    look `wake_client` takes at its socket drops it and queues the request for the next waiter — left over as above. -/
+example : (run { Quirks.fixed with serveDrains := false }
+    [ .conn 3 0 [.bpop .left [ka] 0], .conn 4 0 [.bpop .left [ka] 0], .hangup 3,
+      .conn 2 5 [.multi, .push .right ka [[1]], .exec] ]).wakeQ = [⟨4, ka, .left⟩] := by decide
+
+/-- With `serveDrains` the second client is served by that same EXEC. -/
+example : (run Quirks.fixed wStaleHead).wakeQ = [] ∧ outOf (run Quirks.fixed wStaleHead) 4 = [.pair ka [1]] ∧
+    (run Quirks.fixed wStaleHead).store = [] := by decide
+
+/-- The left-over request strands the second client: a plain `LPOP a` in the same batch takes the element, the drain
+    that follows carries the request out on an empty list and drops it — the client stays blocked, in no queue (its
+    deadline, had it one, is never looked at again: time-outs go through the registry). -/
+theorem stale_head_strands_next_waiter :
+    let s := run { Quirks.fixed with serveDrains := false }
+      [ .conn 3 0 [.bpop .left [ka] 0], .conn 4 0 [.bpop .left [ka] 100], .kill 3,
+        .conn 2 5 [.multi, .push .right ka [[1]], .exec, .pop .left ka], .reap 3, .timeouts 1000 ]
+    s.wakeQ = [] ∧ s.registry = [] ∧ (s.conns 4).blocked = some ⟨[ka], some 100, .left⟩ ∧
+      outOf s 2 = [.ok, .queued, .arrHdr 1, .int 1, .bulk ka [1]] := by decide
+
+example :
+    let s := run Quirks.fixed
+      [ .conn 3 0 [.bpop .left [ka] 0], .conn 4 0 [.bpop .left [ka] 100], .kill 3,
+        .conn 2 5 [.multi, .push .right ka [[1]], .exec, .pop .left ka], .reap 3, .timeouts 1000 ]
+    (s.conns 4).blocked = none ∧ outOf s 4 = [.pair ka [1]] ∧ outOf s 2 = [.ok, .queued, .arrHdr 1, .int 1, .nil] := by decide
+
 /-! ### A transaction is one indivisible step -/
 
-/-- What the commands queued in a transaction see and answer depends on the lists alone — not on who is blocked:
-    no blocked client is served between two commands of an EXEC (it is served once the EXEC has finished). -/
+/-- What the commands queued in a transaction see and answer depends on the lists alone — not on who is blocked, nor on
+    a wake-up request left in the queue: in every state the server can reach, running the queued commands gives the same
+    replies and the same lists as running them with nobody waiting (no blocked client is served between two commands
+    of an EXEC; it is served once the EXEC has finished). -/
 def ExecAtomic (q : Quirks) : Prop :=
-  ∀ (now : Nat) (c : Conn) (cmds : List Cmd) (s t : State),
-    s.store = t.store → s.out = t.out → s.conns = t.conns → s.lost = t.lost →
-    (cmds.foldl (dataCmd q now c 0) s).out = (cmds.foldl (dataCmd q now c 0) t).out ∧
-    (cmds.foldl (dataCmd q now c 0) s).store = (cmds.foldl (dataCmd q now c 0) t).store
+  ∀ (evs : List Event) (now : Nat) (c : Conn) (cmds : List Cmd),
+    (cmds.foldl (dataCmd q now c 0) (run q evs)).out
+      = (cmds.foldl (dataCmd q now c 0) { run q evs with registry := [], wakeQ := [] }).out ∧
+    (cmds.foldl (dataCmd q now c 0) (run q evs)).store
+      = (cmds.foldl (dataCmd q now c 0) { run q evs with registry := [], wakeQ := [] }).store
 
-/-- Holds once the queued commands no longer notify and the pushed keys are served after EXEC (`execAtomic`)… -/
-theorem exec_atomic_holds (q : Quirks) (hx : q.execAtomic = true) : ExecAtomic q := by
-  intro now c cmds s t h1 h2 h3 h4
-  have := Sim_foldl q hx now c cmds (s := s) (t := t) ⟨h1, h2, h3, h4⟩
+/-- The same for any two states with an empty wake queue that agree on lists, replies and connections. -/
+theorem exec_atomic_of_quiet (q : Quirks) (hx : q.execAtomic = true) (now : Nat) (c : Conn) (cmds : List Cmd) (s t : State)
+    (h1 : s.store = t.store) (h2 : s.out = t.out) (h3 : s.conns = t.conns) (h4 : s.lost = t.lost)
+    (hs : s.wakeQ = []) (ht : t.wakeQ = []) :
+    (cmds.foldl (dataCmd q now c 0) s).out = (cmds.foldl (dataCmd q now c 0) t).out ∧
+    (cmds.foldl (dataCmd q now c 0) s).store = (cmds.foldl (dataCmd q now c 0) t).store := by
+  have := Sim_foldl q hx now c cmds (s := s) (t := t) ⟨h1, h2, h3, h4, hs, ht⟩
   exact ⟨this.out, this.store⟩
+
+/-- Holds once the queued commands no longer notify and the pushed keys are served after EXEC (`execAtomic`), AND no
+    request is ever left in the queue (`AlwaysDrains`, by `wake_queue_empty_always`) — for every reachable state, no
+    exclusion… -/
+theorem exec_atomic_holds (q : Quirks) (hx : q.execAtomic = true) (hd : AlwaysDrains q) : ExecAtomic q := by
+  intro evs now c cmds
+  exact exec_atomic_of_quiet q hx now c cmds (run q evs) { run q evs with registry := [], wakeQ := [] }
+    rfl rfl rfl rfl (wake_queue_empty_always q hd evs) rfl
 
 /-- …and then the repaired invariant still holds (`invariant_fixed_partial` is proved for both settings), while the
     waiter is served right after the transaction: -/
@@ -290,12 +355,10 @@ example : outOf (run { Quirks.fixed with deferBatchWhenBlocked := false }
       [.conn 3 0 [.bpop .left [ka] 0], .conn 2 5 [.multi, .push .right ka [[1], [2]], .pop .left ka, .exec]]) 3
       = [.pair ka [2]] := by decide
 
-/-- As the tree is (wake-ups after EACH command, also inside EXEC): with a client blocked on `a`, the LPOP of
+/-- Before the EXEC repair (wake-ups after EACH command, also inside EXEC): with a client blocked on `a`, the LPOP of
     `MULTI; RPUSH a 1; LPOP a; EXEC` answers nil — the blocked client took the element in between. -/
-def sBlockedOnA : State := run { Quirks.fixed with execAtomic := false } [.conn 3 0 [.bpop .left [ka] 0]]
-
 theorem exec_atomic_fails : ¬ ExecAtomic { Quirks.fixed with execAtomic := false } := fun h => by
-  have := (h 5 2 [.push .right ka [[1]], .pop .left ka] sBlockedOnA { sBlockedOnA with registry := [] } rfl rfl rfl rfl).1
+  have := (h [.conn 3 0 [.bpop .left [ka] 0]] 5 2 [.push .right ka [[1]], .pop .left ka]).1
   revert this
   decide
 
@@ -303,6 +366,50 @@ theorem exec_atomic_fails_reply :
     outOf (run { Quirks.fixed with execAtomic := false }
       [.conn 3 0 [.bpop .left [ka] 0], .conn 2 5 [.multi, .push .right ka [[1]], .pop .left ka, .exec]]) 2
       = [.ok, .queued, .queued, .arrHdr 2, .int 1, .nil] := by decide
+
+/-- The tree as it is (`execAtomic` on, `serveDrains` off): after `wStaleHead` a request for client 4 is still queued;
+    the drain that follows the first command of the NEXT transaction carries it out, so that transaction's LPOP finds
+    the list empty — the element went to the blocked client between two of its commands. -/
+theorem exec_atomic_fails_leftover_wake : ¬ ExecAtomic { Quirks.fixed with serveDrains := false } := fun h => by
+  have := (h wStaleHead 9 2 [.push .right kb [[7]], .pop .left ka]).1
+  revert this
+  decide
+
+theorem exec_atomic_fails_leftover_wake_reply :
+    outOf (run { Quirks.fixed with serveDrains := false }
+      (wStaleHead ++ [.conn 2 9 [.multi, .push .right kb [[7]], .pop .left ka, .exec]])) 2
+      = [.ok, .queued, .arrHdr 1, .int 1, .ok, .queued, .queued, .arrHdr 2, .int 1, .nil] := by decide
+
+example :
+    outOf (run Quirks.fixed (wStaleHead ++ [.conn 2 9 [.multi, .push .right kb [[7]], .pop .left ka, .exec]])) 2
+      = [.ok, .queued, .arrHdr 1, .int 1, .ok, .queued, .queued, .arrHdr 2, .int 1, .nil] ∧
+    outOf (run Quirks.fixed (wStaleHead ++ [.conn 2 9 [.multi, .push .right kb [[7]], .pop .left ka, .exec]])) 4
+      = [.pair ka [1]] := by decide
+
+/-! ### A hang-up behind unread bytes -/
+
+/-- The tree as it is (`probeReadsInput` off): the blocked client writes something (unread while it is blocked) and
+    closes; the probe's one-byte peek sees the unread byte, not the end-of-file behind it — `reap` does nothing, and
+    so does the look `wake_client` takes: the next element is popped into the dead socket. -/
+def wHangupBehindBytes : List Event :=
+  [ .conn 3 0 [.bpop .left [ka] 0], .hangupDirty 3, .reap 3, .conn 2 0 [.push .right ka [[1]]], .reap 3 ]
+
+theorem conservation_fails_hangup_behind_unread_bytes :
+    (run { Quirks.fixed with probeReadsInput := false } wHangupBehindBytes).lost = [(ka, [1])] ∧
+    (run { Quirks.fixed with probeReadsInput := false } wHangupBehindBytes).store = [] := by decide
+
+/-- A probe that reads the pending input sees the hang-up: the client is dropped, the element stays. -/
+example : (run Quirks.fixed wHangupBehindBytes).lost = [] ∧ (run Quirks.fixed wHangupBehindBytes).store = [(ka, [1])] ∧
+    AllowedFixed Quirks.fixed wHangupBehindBytes := by decide
+
+/-- …also when the push is handled before the probe's next round (`wake_client` looks with the same probe). -/
+example : (run Quirks.fixed [.conn 3 0 [.bpop .left [ka] 0], .hangupDirty 3, .conn 2 0 [.push .right ka [[1]]]]).lost = [] ∧
+    (run Quirks.fixed [.conn 3 0 [.bpop .left [ka] 0], .hangupDirty 3, .conn 2 0 [.push .right ka [[1]]]]).store = [(ka, [1])] := by
+  decide
+
+/-- `AllowedFixed` excludes that hang-up on the tree as it is (and nothing after it could be covered: the server
+    never learns that the client has gone). -/
+example : ¬ AllowedFixed { Quirks.fixed with probeReadsInput := false } wHangupBehindBytes := by decide
 
 /-! ### Non-vacuity of `AllowedFixed` (on the switches read from the source) -/
 
